@@ -40,7 +40,9 @@ def suite(wt):
 
 def demo(wt, path):
     if path.endswith(".sh"):
-        rc, out = sh(["bash", path], cwd=wt)
+        # demo scripts take the checkout to test as their first argument; give each a private target dir
+        env = dict(ENV, CARGO_TARGET_DIR=SCRATCH + "/target-demo", SCALE_INFO_REPO=wt)
+        rc, out = sh(["bash", path, wt], cwd=wt, env=env)
         return rc == 0, out[-1500:]
     dst = os.path.join(wt, "test_suite", "tests", "seeded_demo.rs")
     shutil.copy(path, dst)
